@@ -1,7 +1,7 @@
 """Shared by C24/C25/C26: exact lattice-coordinate view of a crystal's jump network and space group
 (independent of onsager.crystalStars), brute-force reference enumerations in pure Python integers,
 and printers of Coq literals for Model/Stars.v, Model/OmegaNet.v, Model/VecStars.v."""
-import itertools
+import itertools, os
 import numpy as np
 from .lib import coq_Z, coq_list, coq_nat, coq_bool
 
@@ -172,22 +172,53 @@ def parse_natlist(out):
     return [int(x) for x in re.findall(r"\d+", m.group(1).replace("%nat", ""))]
 
 
-def run_chunks(ck, name, defs, runs, imports, chunk=60, workers=4):
-    """evaluate `runs` (Coq terms of type nat) in chunks, a few coqc processes in parallel;
-    returns the list of result codes (raises CoqFailure)"""
+def run_chunks(ck, name, defs, runs, imports, chunk=60, workers=4, weights=None, wmax=None):
+    """evaluate `runs` (Coq terms of type nat) in chunks, a few coqc processes in parallel; returns the result codes
+    (raises CoqFailure).  Every coqc call is kept SMALL: consecutive runs are packed until their estimated weight reaches
+    `wmax` (or `chunk` runs), so that one call takes well under a minute on an idle machine and cannot approach the coqc
+    timeout even under a tenfold slowdown; a chunk that does time out is retried run by run before it counts as a failure.
+    `defs` may be a list of per-crystal definition blocks (J<k>/G<k>): only the blocks a chunk refers to are included."""
+    import re, time
     from concurrent.futures import ThreadPoolExecutor
     from .lib import CoqFailure, coq_make
     if not runs: return []
     coq_make()
-    parts = [runs[a:a + chunk] for a in range(0, len(runs), chunk)]
+    if weights is None: weights = [1.] * len(runs); wmax = wmax or float(chunk)
+    wmax = wmax or float("inf")
+    parts, cur, w = [], [], 0.
+    for k, (r, wr) in enumerate(zip(runs, weights)):
+        if cur and (w + wr > wmax or len(cur) >= chunk):
+            parts.append(cur); cur, w = [], 0.
+        cur.append(k); w += wr
+    if cur: parts.append(cur)
+    stat = ck.extra.setdefault("coq_chunks", {"calls": 0, "max_s": 0., "total_s": 0., "max_weight": 0., "retried_singly": 0})
 
-    def one(k):
-        body = defs + "Eval vm_compute in [%s]." % ";\n ".join(parts[k])
-        out = ck.coq_cases("%s_%d" % (name, k), body, imports)
+    def defs_for(idx):
+        if isinstance(defs, str): return defs
+        used = set(int(x) for k in idx for x in re.findall(r"\b[JG](\d+)\b", runs[k]))
+        return "".join(d for c, d in enumerate(defs) if c in used)
+
+    def call(tag, idx):
+        body = defs_for(idx) + "Eval vm_compute in [%s]." % ";\n ".join(runs[k] for k in idx)
+        t = time.time()
+        out = ck.coq_cases(tag, body, imports)
+        dt = time.time() - t
+        stat["calls"] += 1; stat["total_s"] = round(stat["total_s"] + dt, 1); stat["max_s"] = round(max(stat["max_s"], dt), 1)
+        stat["max_weight"] = max(stat["max_weight"], float(sum(weights[k] for k in idx)))
+        if os.environ.get("VERIF_CHUNKLOG"): print("CHUNK %s n=%d w=%.3g t=%.1f" % (tag, len(idx), sum(weights[k] for k in idx), dt), flush=True)
         got = parse_natlist(out)
-        if len(got) != len(parts[k]):
+        if len(got) != len(idx):
             raise CoqFailure("could not parse model output: " + out[-300:])
         return got
+
+    def one(p):
+        idx = parts[p]
+        try:
+            return call("%s_%d" % (name, p), idx)
+        except CoqFailure as e:
+            if "timeout" not in str(e) or len(idx) == 1: raise
+            stat["retried_singly"] += 1
+            return [call("%s_%d_%d" % (name, p, k), [k])[0] for k in idx]
     with ThreadPoolExecutor(max_workers=workers) as ex:
         res = list(ex.map(one, range(len(parts))))
     return [c for r in res for c in r]
@@ -249,3 +280,57 @@ def chiral_crystal(name):
 
 CHIRAL2 = ["p4", "p3", "p6"]
 CHIRAL3 = ["P4/m", "P4", "P3", "P-3", "P6/m", "m-3"]
+
+
+# ---- low-symmetry crystals with several sites per cell (rational data that look irrational) ---------------------------
+def lowsym_demo():
+    """triclinic P-1 cell with two sites (the crystal of seeded/C26-r5): some three-jump states are closer to the solute
+    than every two-jump state they can be reached from"""
+    from onsager import crystal
+    latt = np.array([[0.96, -0.43, 0.09], [0.10, 0.85, -0.24], [-0.19, 0.40, 0.90]])
+    return crystal.Crystal(latt, [[np.array([0.88, 0.45, 0.78]), np.array([0.46, 0.66, 0.13])]]), 0, 0.8
+
+
+def lowsym_crystal(rng, dim=3):
+    """random triclinic / monoclinic (3-D) or oblique (2-D) lattice with two-decimal entries and 2-3 sites of one species at
+    two-decimal general positions (no two closer than 0.35); returns (label, crystal, chem) or None"""
+    from onsager import crystal
+    r2 = lambda lo, hi: round(rng.uniform(lo, hi), 2)
+    if dim == 2:
+        kind = "oblique"
+        latt = np.array([[r2(.9, 1.1), r2(-.4, .4)], [r2(-.2, .2), r2(.8, 1.1)]])
+    else:
+        kind = rng.choice(["tri", "tri", "mono"])
+        if kind == "tri":
+            latt = np.array([[r2(.9, 1.1), r2(-.45, .45), r2(-.3, .3)], [r2(-.3, .3), r2(.8, 1.1), r2(-.3, .3)],
+                             [r2(-.3, .3), r2(-.45, .45), r2(.8, 1.1)]])
+        else:
+            latt = np.array([[r2(.9, 1.1), 0., r2(-.4, .4)], [0., r2(.8, 1.2), 0.], [0., 0., r2(.8, 1.1)]])
+    if abs(np.linalg.det(latt)) < 0.4: return None
+    pts = []
+    for _ in range(rng.choice([2, 2, 3])):
+        for _try in range(30):
+            u = np.array([r2(0., .99) for _ in range(dim)])
+            if all(np.linalg.norm(np.dot(latt, crystal.inhalf(u - v))) > 0.35 for v in pts):
+                pts.append(u); break
+    if len(pts) < 2: return None
+    try:
+        crys = crystal.Crystal(latt, [pts])
+    except Exception:
+        return None
+    if len(crys.basis[0]) < 2: return None        # cell reduction merged the sites
+    return "lowsym-%s%d" % (kind, len(crys.basis[0])), crys, 0
+
+
+def lowsym_network(crys, chem, rng, maxjumps=40):
+    """cut-off above a random one of the 3rd..9th neighbour shells: several jump types, no percolation requirement
+    (StarSet needs none)"""
+    from . import gen
+    sh = gen.shells(crys, chem)
+    target = rng.randint(2, 8)
+    best = None
+    for k in range(min(target + 1, len(sh))):
+        jn = crys.jumpnetwork(chem, sh[k] + 1e-4)
+        if sum(len(t) for t in jn) > maxjumps: break
+        if len(jn) >= 2: best = (sh[k] + 1e-4, jn)
+    return best
